@@ -360,6 +360,102 @@ def run(ctx, proof):
                            "mode": mode, "first": first, "second": second, "expected_second": str(rhs)})
             break
 
+    # "any incomplete game": an implementation of the package's IncompleteGame protocol that is NOT the package's own class
+    # and keeps its bounds in arrays of other dtypes (integer lower bounds with float upper bounds, all-integer, object/Fraction)
+    class ProtoGame:
+        def __init__(self, n, lo, up, lo_dtype, up_dtype):
+            self._n, self._lo, self._up = n, np.array(lo, dtype=lo_dtype), np.array(up, dtype=up_dtype)
+
+        @property
+        def number_of_players(self):
+            return self._n
+
+        def _sel(self, arr, coalitions):
+            return arr if coalitions is None else arr[[c.id for c in coalitions]]
+
+        def get_upper_bounds(self, coalitions=None):
+            return self._sel(self._up, coalitions)
+
+        def get_lower_bounds(self, coalitions=None):
+            return self._sel(self._lo, coalitions)
+
+        def get_upper_bound(self, coalition):
+            return self._up[coalition.id]
+
+        def get_lower_bound(self, coalition):
+            return self._lo[coalition.id]
+
+        def get_interval(self, coalition):
+            return np.array([self._lo[coalition.id], self._up[coalition.id]])
+
+        def get_intervals(self, coalitions=None):
+            return np.stack([self.get_lower_bounds(coalitions), self.get_upper_bounds(coalitions)], axis=1)
+
+        def is_value_known(self, coalition):
+            return bool(self._lo[coalition.id] == self._up[coalition.id])
+
+        def are_values_known(self, coalitions=None):
+            return self.get_lower_bounds(coalitions) == self.get_upper_bounds(coalitions)
+
+        def get_value(self, coalition):
+            if not self.is_value_known(coalition):
+                raise ValueError("unknown")
+            return self._up[coalition.id]
+
+        def get_values(self, coalitions=None):
+            return self.get_upper_bounds(coalitions)
+
+        def get_known_value(self, coalition):
+            return self._up[coalition.id] if self.is_value_known(coalition) else None
+
+        def get_known_values(self, coalitions=None):
+            return np.where(self.are_values_known(coalitions), self.get_upper_bounds(coalitions), np.nan)
+
+        def compute_bounds(self):
+            pass
+
+        def copy(self):
+            return ProtoGame(self._n, self._lo, self._up, self._lo.dtype, self._up.dtype)
+
+        def __add__(self, other):
+            raise NotImplementedError
+
+    for _ in range(30 if ctx.quick else 300):
+        n = rng.randint(2, 5)
+        lo = [0] + [rng.randint(-6, 6) for _ in range(2 ** n - 1)]
+        kind = rng.choice(["int-lower/float-upper", "all-int", "float32", "object-fractions"])
+        if kind == "int-lower/float-upper":
+            up = [0.0] + [lo[s_] + rng.choice([0, 0.5, 1.25, 2.75]) for s_ in range(1, 2 ** n)]
+            dts = (np.int64, np.float64)
+        elif kind == "all-int":
+            up = [0] + [lo[s_] + rng.randint(0, 4) for s_ in range(1, 2 ** n)]
+            dts = (np.int64, np.int64)
+        elif kind == "float32":
+            up = [0.0] + [lo[s_] + rng.choice([0, 0.5, 1.25, 2.75]) for s_ in range(1, 2 ** n)]
+            dts = (np.float32, np.float32)
+        else:
+            lo = [Fraction(x) for x in lo]
+            up = [Fraction(0)] + [lo[s_] + Fraction(rng.randint(0, 12), 4) for s_ in range(1, 2 ** n)]
+            dts = (object, object)
+        up[-1] = lo[-1]                                        # the grand coalition is known
+        g = ProtoGame(n, lo, up, *dts)
+        ctx.evaluations += 1
+        ctx.count("protocol_game_dtypes", kind)
+        rhs = weighted_gap(n, [frac(x) for x in lo], [frac(x) for x in up])
+        try:
+            got = compute_exploitability(g)
+        except Exception as e:
+            ctx.violation(f"compute_exploitability raised {type(e).__name__} on an IncompleteGame implementation with {kind} bounds: {e}",
+                          {"n": n, "kind": kind, "lower": [str(x) for x in lo], "upper": [str(x) for x in up]})
+            break
+        if abs(float(got) - float(rhs)) > 1e-6 * max(1.0, abs(float(rhs))):
+            ctx.violation(f"exploitability of an IncompleteGame implementation with {kind} bounds is {float(got)!r}, but "
+                          f"sum (u-l)/C(n,|S|) = {float(rhs)!r}",
+                          {"n": n, "kind": kind, "lower": [str(x) for x in lo], "upper": [str(x) for x in up],
+                           "observed": float(got), "expected": str(rhs)})
+            break
+        ctx.nontrivial.add(("proto", kind, n, tuple(map(str, lo)), tuple(map(str, up))))
+
     # in-Coq shard: the same cases evaluated by vm_compute on the Gallina model; must equal the extracted model's output
     shard = [(c, out) for c, out in zip(cases, outs) if c["n"] <= 5 and c["shape"] != "grand-unknown"]
     rng.shuffle(shard)
